@@ -102,6 +102,68 @@ def part_a(rep, tier):
     rep.paths += len(EP.defs) + len(EC.defs)
 
 
+def part_c(rep, tier):
+    """every well-formed file parses: exists t (<= NW tokens): the STRICT reference grammar derives t and the live
+    grammar (PEG reading) rejects it?  Reference = harness/refsym.py with reserved words excluded from identifiers, i.e.
+    the documented dialect; the other inclusion (live accepts => relaxed reference derives) is checked under C07."""
+    import pyparsing as pp
+    from harness import refsym
+    quick = tier == "quick"
+    NW = int(os.environ.get("VERIF_C01_NW", 0)) or (12 if quick else 15)
+    G, parser = gcommon.load_grammar()
+    tok, length = gram.mk_stream(NW, "w")
+    t0 = time.time()
+    try:
+        E = gram.Enc(G, NW, tok, length, "w", mode="peg", sep_fixed=1)
+        acc = E.accepts()
+    except gram.Unsupported as ex:
+        rep.harness_error("grammar uses a construct the encoder does not support: %s" % ex)
+        return
+    R = refsym.Sym(G.V, NW, tok, length, relaxed=False)
+    racc = R.accepts()
+    t_enc = time.time() - t0
+    s = gcommon.new_solver(300 if quick else 3000)
+    s.add(E.defs); s.add(gram.stream_constraints(G, NW, tok, length)); s.add(E.default_domain()); s.add(E.include_domain())
+    rep.functions.add("harness/refsym.py RULES with the strict identifier rule (%d rule instances encoded)" % R.nodes)
+    nval = 0
+    for side, cond in (("derives", racc), ("does not derive", z3.And(z3.Not(racc), acc))):
+        s.push(); s.add(cond)
+        for _ in range(8 if quick else 25):
+            if str(s.check()) != "sat":
+                break
+            m = s.model()
+            toks = E.tokens(m)
+            if refsym.concrete(toks, relaxed=False) != (side == "derives"):
+                rep.harness_error("symbolic strict reference says %r %s, the concrete recogniser disagrees" % (" ".join(toks), side))
+            nval += 1
+            L = len(toks)
+            s.add(z3.Or([tok[k] != m.eval(tok[k], model_completion=True) for k in range(L)] + [length != L]))
+        s.pop()
+    rep.extra["strict_reference_validation_cases"] = nval
+    s.push(); s.add(racc, gram.Not_(acc))
+    r, m, dt = gcommon.check(s, rep, "wellformed-accepted", NW)
+    verdict = {"unsat": "confirmed", "sat": "counterexample"}.get(r, "inconclusive(timeout)")
+    if r == "sat":
+        toks, text = E.tokens(m), E.render(m)
+        try:
+            parser.Module.parseString(text); real = "accept"
+        except pp.ParseBaseException:
+            real = "reject"
+        except (ValueError, AssertionError):
+            real = "accept"
+        rep.extra["replayed"] = rep.extra.get("replayed", 0) + 1
+        if real == "reject" and refsym.concrete(toks, relaxed=False):
+            rep.violation("well-formed input %r is rejected by the parser" % text, dict(kind="c01-lost", text=text, tokens=toks))
+        else:
+            rep.harness_error("well-formedness model %r did not reproduce (real parser: %s, strict reference derives: %s)" % (text, real, refsym.concrete(toks, relaxed=False)))
+            verdict = "error"
+    rep.cond("c01.c_wellformed_accepted", "z3: strict reference grammar encoding vs live grammar encoding", verdict, dt + t_enc,
+             "exists a token string the documented dialect derives and the parser rejects?", bounds="all token strings of length<=%d over %d spellings" % (NW, len(G.V)))
+    s.pop()
+    rep.paths += len(E.defs)
+    rep.bounds["wellformed_accepted"] = {"max_tokens": NW, "layout": "single space between tokens", "identifier rule": "strict (reserved words are not identifiers; `pair` is an ordinary name outside the head of a return type)"}
+
+
 def run(tier):
     rep = Report("C01", tier, "model_checking")
     rep.assumptions = ["token-level model with real-leaf tables", "default values are single atom tokens",
@@ -109,6 +171,7 @@ def run(tier):
                        "second replay oracle: hand-written recogniser of the DOCS.md dialect (harness/refgrammar.py)"]
     rep.outside = ["files longer than the bounds", "identifier spellings other than the exemplars", "character-level layout (C12)"]
     part_a(rep, tier)
+    part_c(rep, tier)
     if os.path.exists(os.path.join(os.path.dirname(__file__), "..", "harness", "c01_tree.py")):
         from harness import c01_tree
         open_f, _ = load_known_findings("C01")
